@@ -214,5 +214,250 @@ class LiteralInputFieldValue(Contract):
                 ('provided_value_is_coerced', z3.Implies(z3.Not(no_value), coerced(attr0(vn, 'value'))))]
 
 
-CONTRACTS = [IsMissingVariable(), NullAndVariableWrapper(), LiteralNonNull(), LiteralDirectives(), LiteralInputFieldValue()]
+
+class ArgumentCoercer(Contract):
+    """argument_coercer == one iteration of CoerceArgumentValues (GraphQL 6.4.1): which value an argument contributes (literal coerced to the
+    declared type, variable -> its coerced runtime value, omitted -> default or absent, null kept distinct from absent), when the field fails
+    (null / missing at a non-null argument, ill-typed literal), and that the argument's hook chain runs exactly once on a valid value"""
+    key = 'tartiflette/coercers/argument.py::argument_coercer'
+    property_ids = ('C05', 'C13')
+    params = ['argument_definition', 'node', 'argument_node', 'variable_values', 'ctx', 'directives']
+    modifies_fields = ('value', 'errors')
+
+    def args(self, en, names):
+        self.A = super().args(en, names)
+        self.lit_val, self.lit_ok = fresh('literal_value'), fresh('literal_ok', BoolS)
+        self.hook_res = fresh('hooked_result')
+        return self.A
+
+    def pre(self, A, st):
+        d, an, vs = A['argument_definition'], A['argument_node'], A['variable_values']
+        t, val = attr0(d, 'graphql_type'), attr0(an, 'value')
+        return [('definition', z3.And(exact(d, 'GraphQLArgument'), V.oref(d) >= 0, V.is_Str(attr0(d, 'name')), inst(t, 'GraphQLType'), V.oref(t) >= 0,
+                                      z3.Or(attr0(d, 'default_value') == V.None_, z3.And(inst(attr0(d, 'default_value'), 'ValueNode'), ast_node(attr0(d, 'default_value')))),
+                                      V.is_Fun(attr0(d, 'literal_coercer')))),
+                ('argument_node', z3.Or(an == V.None_, z3.And(exact(an, 'ArgumentNode'), V.oref(an) >= 0, inst(val, 'ValueNode'), ast_node(val), variable_node_wf(val)))),
+                ('node', ast_node(A['node'])),
+                ('variables', variables_ok(vs)),
+                # coerced variable maps hold no UNDEFINED entry (coerce_variables, C04: invalid values abort the request, missing ones are left out)
+                ('variable_value_is_a_value', lookup(V.ditems(vs), var_name_of(val)) != V.Undef),
+                ('directives', z3.And(z3.Or(A['directives'] == V.None_, V.is_Fun(A['directives'])), A['directives'] != attr0(d, 'literal_coercer')))]
+
+    def ghost0(self, A):
+        return {'lit_calls': z3.IntVal(0), 'lit_args': V.Missing, 'hook_calls': z3.IntVal(0), 'hook_args': V.Missing}
+
+    def call_model(self, en, st, f, a, kw):
+        A = self.A
+        if z3.eq(z3.simplify(f), z3.simplify(attr0(A['argument_definition'], 'literal_coercer'))):
+            shape = len(a) == 3 and set(kw) == {'variables'}
+            rec = V.Tuple(mklist(*[en.read(x, st) for x in a], en.read(kw['variables'], st))) if shape else V.Missing
+            st = st.put_ghost('lit_calls', st.ghost['lit_calls'] + 1).put_ghost('lit_args', rec)
+            st2, cr = new_cr(en, st, self.lit_ok, self.lit_val)
+            return [(st2, cr)]
+        if z3.eq(f, A['directives']):
+            shape = len(a) == 5 and set(kw) == {'context_coercer'}
+            rec = V.Tuple(mklist(*[en.read(x, st) for x in a], en.read(kw['context_coercer'], st))) if shape else V.Missing
+            return [(st.put_ghost('hook_calls', st.ghost['hook_calls'] + 1).put_ghost('hook_args', rec), self.hook_res)]
+        return None
+
+    def post(self, A, st0, out):
+        d, an, vs, g, r, st = A['argument_definition'], A['argument_node'], A['variable_values'], out.st.ghost, out.value, out.st
+        t, default, lit = attr0(d, 'graphql_type'), attr0(d, 'default_value'), attr0(an, 'value')
+        if out.kind == 'raise':
+            # the only failure: a SCHEMA default that is ill-typed for its own argument, used because the argument is omitted -- building the error
+            # message dereferences the absent argument node (AttributeError); the field still fails, with that exception as its error
+            return [('raises_only_for_an_ill_typed_schema_default_of_an_omitted_argument',
+                     z3.And(an == V.None_, default != V.None_, self.lit_ok, self.lit_val == V.Undef, exact(out.value, 'AttributeError'), g['hook_calls'] == 0))]
+        present = an != V.None_
+        isvar = z3.And(present, exact(lit, 'VariableNode'))
+        val = lookup(V.ditems(vs), var_name_of(lit))
+        has_value = z3.If(isvar, z3.And(py_truthy(vs), val != V.Missing), present)
+        is_null = z3.If(isvar, z3.And(has_value, val == V.None_), z3.And(present, exact(lit, 'NullValueNode')))
+        nn = inst(t, 'GraphQLNonNull')
+        use_default = z3.And(z3.Not(has_value), default != V.None_)
+        field_error = z3.And(z3.Not(use_default), z3.Or(z3.Not(has_value), is_null), nn)
+        provided = z3.And(z3.Not(use_default), z3.Not(field_error), has_value)
+        absent = z3.And(z3.Not(use_default), z3.Not(field_error), z3.Not(has_value))
+        literal = z3.And(provided, z3.Not(isvar), z3.Not(exact(lit, 'NullValueNode')))
+        coerced = z3.Or(use_default, literal)                                  # the declared type's literal coercer decides the entry
+        # the candidate entry before hooks
+        c_ok = z3.If(coerced, self.lit_ok, True)
+        c_val = z3.If(coerced, self.lit_val, z3.If(isvar, val, V.None_))
+        invalid = z3.And(coerced, self.lit_ok, self.lit_val == V.Undef)       # ill-typed literal
+        hooks = z3.And(z3.Or(provided, use_default), c_ok, z3.Not(invalid), py_truthy(A['directives']))
+        one_error = z3.And(exact(r, 'CoercionResult'), V.is_List(cr_errors(st, r)), length(V.items(cr_errors(st, r))) == 1)
+        return [('literal_coercer_runs_exactly_when_a_literal_or_default_is_used', g['lit_calls'] == z3.If(coerced, 1, 0)),
+                ('on_the_default_or_the_literal_with_the_request_variables',
+                 z3.Implies(coerced, g['lit_args'] == V.Tuple(mklist(attr0(d, 'definition'), z3.If(use_default, default, lit), A['ctx'], vs)))),
+                ('omitted_without_default_is_absent', z3.Implies(absent, z3.And(r == V.Undef, g['hook_calls'] == 0))),
+                ('null_or_missing_at_non_null_fails_the_field', z3.Implies(field_error, z3.And(one_error, g['hook_calls'] == 0, g['lit_calls'] == 0))),
+                ('ill_typed_literal_fails_the_field', z3.Implies(invalid, z3.And(one_error, g['hook_calls'] == 0, an != V.None_))),
+                ('coercion_errors_are_kept', z3.Implies(z3.And(coerced, z3.Not(self.lit_ok)), z3.And(exact(r, 'CoercionResult'), z3.Not(cr_ok(st, r)), g['hook_calls'] == 0))),
+                ('hooks_run_exactly_once_on_a_valid_value', g['hook_calls'] == z3.If(hooks, 1, 0)),
+                ('hooks_get_node_definition_argument_value_and_context',
+                 z3.Implies(hooks, z3.And(r == self.hook_res, g['hook_args'] == V.Tuple(mklist(A['node'], attr0(d, 'definition'), an, c_val, A['ctx'], A['ctx']))))),
+                ('without_hooks_the_entry_is_the_value', z3.Implies(z3.And(z3.Or(provided, use_default), c_ok, z3.Not(invalid), z3.Not(py_truthy(A['directives']))),
+                                                                    z3.And(exact(r, 'CoercionResult'), cr_ok(st, r), cr_value(st, r) == c_val)))]
+
+
+
+# ---- coerce_arguments: the dictionary handed to a resolver / hook (GraphQL 6.4.1), pointwise for an arbitrary argument definition
+from pyvc.symexec import coro_raises, coro_exc, coro_value, LoopContract, PyMapped     # noqa: E402
+from pyvc.values import UNFOLD, ForallList                                             # noqa: E402
+from pyvc.builtins import gather_outcomes                                               # noqa: E402
+
+ArgCoro = z3.Function('ArgumentCoercionOf', V, V, V, V, V, V)     # (definition, node, argument node or None, variables, ctx): the un-awaited coroutine
+
+
+def arg_name_of(n):
+    return attr0(attr0(n, 'name'), 'value')
+
+
+# {argument_node.name.value: argument_node for argument_node in nodes}: later entries win (names are unique in validated documents)
+ArgMap = z3.RecFunction('ArgumentNodesByNameUpTo', VL, IntS, VL)
+_an = z3.Const('am_nodes', VL)
+_ak = z3.Int('am_k')
+_argmap = lambda ns, k: z3.If(k <= 0, VL.nil, assoc_set(ArgMap(ns, k - 1), arg_name_of(nth(ns, k - 1)), nth(ns, k - 1)))
+z3.RecAddDefinition(ArgMap, [_an, _ak], _argmap(_an, _ak))
+UNFOLD['ArgumentNodesByNameUpTo'] = _argmap
+
+
+def node_for(nodes, name):
+    v = lookup(ArgMap(nodes, length(nodes)), name)
+    return z3.If(v == V.Missing, V.None_, v)
+
+
+AllArgNodes = ForallList('argument_node', lambda n: z3.And(exact(n, 'ArgumentNode'), V.oref(n) >= 0, exact(attr0(n, 'name'), 'NameNode'), V.oref(attr0(n, 'name')) >= 0,
+                                                           V.is_Str(arg_name_of(n))))
+
+
+AllArgMapEntries = ForallList('argument_map_entry', lambda p: z3.And(exact(V.snd(p), 'ArgumentNode'), V.oref(V.snd(p)) >= 0))
+
+
+def arg_coro(p, A):
+    d = V.snd(p)
+    return ArgCoro(d, A['node'], node_for(V.items(attr0(A['node'], 'arguments')), attr0(d, 'name')), A['variable_values'], A['ctx'])
+
+
+def arg_def_entry_wf(p, node, vv, ctx):
+    d = V.snd(p)
+    c = arg_coro(p, {'node': node, 'variable_values': vv, 'ctx': ctx})
+    r, e = coro_value(c), coro_exc(c)
+    return z3.And(V.is_Pair(p), V.is_Str(V.fst(p)), exact(d, 'GraphQLArgument'), V.oref(d) >= 0, attr0(d, 'name') == V.fst(p), V.is_Fun(attr0(d, 'coercer')),
+                  exact(c, 'coroutine'),
+                  # what one argument's coercion yields (ArgumentCoercer / the hook chain): UNDEFINED, a CoercionResult, or a hook's own value; or it fails
+                  r != V.Missing, z3.Not(inst(r, 'Exception')),
+                  z3.Implies(exact(r, 'CoercionResult'), z3.And(V.oref(r) >= 0, z3.Or(attr0(r, 'errors') == V.None_, V.is_List(attr0(r, 'errors'))))),
+                  inst(e, 'Exception'), V.oref(e) >= 0, exc_full_wf(e))
+
+
+AllArgDefs = ForallList('argument_definition_entry', arg_def_entry_wf, param_sorts=[V, V, V])
+
+
+def arg_outcome(c):
+    return z3.If(coro_raises(c), coro_exc(c), coro_value(c))
+
+
+def arg_fails(c):
+    r = coro_value(c)
+    return z3.Or(coro_raises(c), z3.And(exact(r, 'CoercionResult'), py_truthy(attr0(r, 'errors'))))
+
+
+def arg_entry(c):
+    """the dictionary entry contributed by one argument: absent (Missing) for UNDEFINED, else the coerced value"""
+    r = coro_value(c)
+    return z3.If(arg_fails(c), V.Missing, z3.If(r == V.Undef, V.Missing, z3.If(exact(r, 'CoercionResult'), attr0(r, 'value'), r)))
+
+
+AnyArgFails = z3.RecFunction('SomeArgumentFailsUpTo', VL, V, V, V, IntS, BoolS)
+_dl = z3.Const('af_defs', VL)
+_nd, _vs, _cx = z3.Consts('af_node af_vars af_ctx', V)
+_anyf = lambda dl, nd, vs, cx, k: z3.If(k <= 0, False, z3.Or(AnyArgFails(dl, nd, vs, cx, k - 1), arg_fails(arg_coro(nth(dl, k - 1), {'node': nd, 'variable_values': vs, 'ctx': cx}))))
+z3.RecAddDefinition(AnyArgFails, [_dl, _nd, _vs, _cx, _ak], _anyf(_dl, _nd, _vs, _cx, _ak))
+UNFOLD['SomeArgumentFailsUpTo'] = _anyf
+
+
+class CoerceArguments(Contract):
+    """coerce_arguments: every argument DEFINITION is coerced exactly once (with the argument node of its own name, or none), and the dictionary
+    pairs each definition's name with its own outcome: absent when the coercion says absent, the value otherwise; any failure fails the
+    whole field with every error gathered.  Proved for an arbitrary definition index j0 (hence for all)."""
+    key = 'tartiflette/coercers/arguments.py::coerce_arguments'
+    property_ids = ('C05', 'C08')
+    params = ['argument_definitions', 'node', 'variable_values', 'ctx', 'coercer']
+    timeout_ms = 15000
+
+    def args(self, en, names):
+        self.A = super().args(en, names)
+        self.j0 = z3.Int('j0')
+        return self.A
+
+    def defs(self, A=None):
+        return V.ditems((A or self.A)['argument_definitions'])
+
+    def pre(self, A, st):
+        defs, node = self.defs(A), A['node']
+        x = z3.Int('ux_')
+        return [('node', z3.And(z3.Or(exact(node, 'FieldNode'), exact(node, 'DirectiveNode')), V.oref(node) >= 0, V.is_List(attr0(node, 'arguments')), AllArgNodes(V.items(attr0(node, 'arguments'))))),
+                ('definitions', z3.And(V.is_Dict(A['argument_definitions']), AllArgDefs(defs, node, A['variable_values'], A['ctx']))),
+                ('strategy', V.is_Fun(A['coercer'])),
+                ('arbitrary_position', z3.And(self.j0 >= 0, self.j0 < length(defs))),
+                ('dict_keys_unique', z3.ForAll([x], z3.Implies(z3.And(x >= 0, x < length(defs), V.fst(nth(defs, x)) == V.fst(nth(defs, self.j0))), x == self.j0),
+                                               patterns=[nth(defs, x)]))]
+
+    def ghost0(self, A):
+        return {'strategy_calls': z3.IntVal(0)}
+
+    def call_model(self, en, st, f, a, kw):
+        A = self.A
+        f = z3.simplify(f)
+        if z3.is_app(f) and f.decl().kind() == z3.Z3_OP_SELECT and f.arg(0).eq(field0('coercer')):
+            if len(a) != 5 or kw:
+                return None
+            t = [en.read(x, st) for x in a]
+            return [(st, ArgCoro(*t))]          # an un-awaited coroutine object
+        if z3.eq(f, A['coercer']):
+            # the arguments-coercer strategy (gather_arguments_coercer / sync_arguments_coercer and user replacements): runs every coroutine once and
+            # returns their outcomes BY POSITION, failures as exception values (assumed contract of the strategy)
+            if len(a) != 1 or not (isinstance(a[0], tuple) and a[0][0] == '*') or kw:
+                return None
+            star = a[0][1]
+            st = st.put_ghost('strategy_calls', st.ghost['strategy_calls'] + 1)
+            if isinstance(star, PyMapped):
+                R = V.items(star.term)
+                res = gather_outcomes(R)
+                return [(st.assume(length(res) == star.n), PyMapped(V.List(res), star.n, star.elem))]
+            t = en.read(star, st)
+            return [(st.assume(V.is_List(t)), V.List(gather_outcomes(V.items(t))))]
+        return None
+
+    def _invd(self, en, st, k, st0):
+        nodes = V.items(attr0(self.A['node'], 'arguments'))
+        d = en.read(st.env['__dictcomp0'], st)
+        return {'nodes_by_name': d == V.Dict(ArgMap(nodes, k)), 'entries_are_argument_nodes': AllArgMapEntries(V.ditems(d))}
+
+    def _inv(self, en, st, k, st0):
+        A, defs, j0 = self.A, self.defs(), self.j0
+        c0 = arg_coro(nth(defs, j0), A)
+        cv = V.ditems(en.read(st.env['coerced_values'], st))
+        ce = en.read(st.env['coercion_errors'], st)
+        return {'own_outcome_under_own_name': lookup(cv, V.fst(nth(defs, j0))) == z3.If(j0 < k, arg_entry(c0), V.Missing),
+                'errors_iff_some_argument_failed': z3.And(V.is_List(ce), py_truthy(ce) == AnyArgFails(defs, A['node'], A['variable_values'], A['ctx'], k)),
+                'is_map': V.is_Dict(en.read(st.env['coerced_values'], st))}
+
+    @property
+    def loops(self):
+        return {('dictcomp', 0): LoopContract(self._invd), 0: LoopContract(self._inv)}
+
+    def post(self, A, st0, out):
+        defs = self.defs(A)
+        anyf = AnyArgFails(defs, A['node'], A['variable_values'], A['ctx'], length(defs))
+        if out.kind == 'raise':
+            return [('fails_only_when_some_argument_failed', z3.And(exact(out.value, 'MultipleException'), anyf))]
+        c0 = arg_coro(nth(defs, self.j0), A)
+        r = out.value
+        return [('is_map', V.is_Dict(r)), ('no_failure_is_swallowed', z3.Not(anyf)),
+                ('each_definition_contributes_its_own_outcome', lookup(V.ditems(r), V.fst(nth(defs, self.j0))) == arg_entry(c0))]
+
+
+CONTRACTS = [ArgumentCoercer(), CoerceArguments(), IsMissingVariable(), NullAndVariableWrapper(), LiteralNonNull(), LiteralDirectives(), LiteralInputFieldValue()]
 LEMMAS = []
